@@ -275,7 +275,7 @@ func raceCheck(a Args) {
 	buildTime := time.Since(t0)
 
 	// ---- which processes ---------------------------------------------------------------------
-	trials := 11
+	trials := 12
 	timeout := 120 * time.Second
 	if a.Tier == "thorough" {
 		trials = 27
